@@ -52,3 +52,27 @@ Proof.
       try (destruct Hp as [<-|[]]; destruct Hq as [<-|[]]; vm_compute; split; [discriminate|reflexivity]).
     all: try congruence.
 Qed.
+
+(* ---- outside the hypothesis 0 <= X <= n*D of concurrent_rows_disjoint: positions that were NOT wrapped into [0, box).
+   partition_parallel computes int(x * npartition / box): truncation toward zero, and a negative key indexes the histogram
+   from the end (NumPy/numba negative index), so an unwrapped x in [-box/2, 0) is filed one stripe away from where it lies.
+   Grid 24, 8 stripes of width 3 (an accepted configuration: safe 24 4 8), positions 11 and -11 (= 13 modulo the box): they are
+   filed in stripes 3 and 5 - equal parity, processed concurrently - and both update row 12.  This is why tsc_parallel
+   wraps by default, and what a caller that passes wrap=False on unwrapped positions runs into (seeded change
+   C07-interlaced-second-pass-unwrapped-copy; found on the implementation by the callers stage of harness/c07.py). *)
+
+Example wrap_is_necessary :
+  safe 24 4 8 /\ key_unwrapped 24 8 1 11 = 3 /\ key_unwrapped 24 8 1 (-11) = 5 /\
+  (key_unwrapped 24 8 1 11 - key_unwrapped 24 8 1 (-11)) mod 2 = 0 /\
+  In 12 (rows 24 1 0 11) /\ In 12 (rows 24 1 0 (-11)).
+Proof. unfold safe. vm_compute. repeat split; auto; try (right; right; split; [reflexivity|discriminate]). Qed.
+
+(* on wrapped positions the two key functions agree (non-negative products: quot = div) *)
+Lemma key_unwrapped_is_key n np D X :
+  0 < D -> 0 < n -> 1 <= np -> 0 <= X -> key_unwrapped n np D X = key n np D X.
+Proof.
+  intros HD Hn Hnp HX. unfold key_unwrapped, key.
+  rewrite Z.quot_div_nonneg by nia.
+  assert (0 <= (X * np) / (D * n)) by (apply Z.div_pos; nia).
+  destruct (Z.min (X * np / (D * n)) (np - 1) <? 0) eqn:E; [apply Z.ltb_lt in E; lia|reflexivity].
+Qed.
